@@ -1218,7 +1218,19 @@ Section Phases.
       /\ (forall j f idx b, slot_of c pos j = SFile f idx b ->
             (forall i, i <> idx -> fblk (r_fs s') j (cf_name f) i = fblk (r_fs s) j (cf_name f) i)
             /\ (fsz (r_fs s) j (cf_name f) <= fsz (r_fs s') j (cf_name f))%N
-            /\ (fsz (r_fs s') j (cf_name f) <= N.max (fsz (r_fs s) j (cf_name f)) (N.of_nat idx * bs + block_len bs (cf_size f) idx))%N).
+            /\ (fsz (r_fs s') j (cf_name f) <= N.max (fsz (r_fs s) j (cf_name f)) (N.of_nat idx * bs + block_len bs (cf_size f) idx))%N)
+      (* the files that have no block in this stripe are not touched at all, nor is their FIXED flag *)
+      /\ (forall j' n', (forall f idx b, slot_of c pos j' = SFile f idx b -> cf_name f <> n') ->
+                        fs_find (r_fs s') j' n' = fs_find (r_fs s) j' n'
+                        /\ fl_fixed (get_fl (r_flags s') (j', n')) = fl_fixed (get_fl (r_flags s) (j', n')))
+      (* FIXED is set exactly on the files whose block was damaged; a file neither damaged here nor FIXED before is not touched;
+         at its last block a FIXED file gets its recorded time-stamp back *)
+      /\ (forall j f idx b, slot_of c pos j = SFile f idx b ->
+            fl_fixed (get_fl (r_flags s') (j, cf_name f)) = fl_fixed (get_fl (r_flags s) (j, cf_name f)) || is_bad c pos s j
+            /\ (is_bad c pos s j = false -> fl_fixed (get_fl (r_flags s) (j, cf_name f)) = false ->
+                fs_find (r_fs s') j (cf_name f) = fs_find (r_fs s) j (cf_name f))
+            /\ (uniq_stamp c j f -> S idx = length (cf_blocks f) -> fl_fixed (get_fl (r_flags s') (j, cf_name f)) = true ->
+                exists g, fs_find (r_fs s') j (cf_name f) = Some g /\ ff_mtime g = cf_mtime f /\ ff_nsec g = cf_nsec f)).
     Proof.
       pose proof (data_phase_inv o c pos s Hplain Hsync Hlenfs Hfile) as I.
       set (a := data_phase hashf bs newino now o c pos s) in *.
@@ -1336,6 +1348,51 @@ Section Phases.
               unfold is_bad in Eb2. rewrite Es, Er in Eb2. rewrite Eb in Eb2. discriminate. }
       assert (Hj_of : forall j f idx b, slot_of c pos j = SFile f idx b -> j < n).
       { intros j f idx b Es. destruct (Nat.lt_ge_cases j n) as [H|H]; [exact H|]. rewrite slot_of_out in Es by exact H. discriminate. }
+      (* flags and time-stamps *)
+      destruct (wfold_flags o pos buf' Hplain es s5 (fun x Hx => proj2 (Hpres x Hx)) Hnd) as [WF1 WF2]. fold s6 in WF1, WF2.
+      assert (Hd7' : forall j f idx b, slot_of c pos j = SFile f idx b -> fl_damaged (get_fl (r_flags s7) (j, cf_name f)) = false).
+      { intros j f idx b Es. rewrite Hd7. eapply Hdam. exact Es. }
+      destruct (fold_file_post_stamps o c pos Hplain Hfix (seq 0 n) s7 (seq_NoDup n 0) Hd7') as [FSA FSB]. fold s8 in FSA, FSB.
+      assert (Hes_key : forall x j f idx b, In x es -> slot_of c pos j = SFile f idx b -> is_bad c pos s j = false -> (j, cf_name f) <> we_key x).
+      { intros x j f idx b Hx Es Eb X. destruct (es_in x Hx) as [j2 [f2 [i2 [b2 [Ex [_ [_ Eb2]]]]]]]. subst x. cbn in X. injection X as X1 X2. subst j2. congruence. }
+      assert (G1 : forall j' n', (forall f idx b, slot_of c pos j' = SFile f idx b -> cf_name f <> n') ->
+                        fs_find (r_fs s8) j' n' = fs_find (r_fs s) j' n'
+                        /\ fl_fixed (get_fl (r_flags s8) (j', n')) = fl_fixed (get_fl (r_flags s) (j', n'))).
+      { intros j' n' Hno.
+        assert (Hne_es : forall x, In x es -> (j', n') <> we_key x).
+        { intros x Hx X. destruct (es_in x Hx) as [j2 [f2 [i2 [b2 [Ex [_ [Es2 _]]]]]]]. subst x. cbn in X. injection X as X1 X2. subst j2.
+          apply (Hno f2 i2 b2 Es2). symmetry. exact X2. }
+        destruct (FSA j' n') as [A1 A2].
+        { intros j f idx b _ Es X. injection X as X1 X2. subst j'. apply (Hno f idx b Es). symmetry. exact X2. }
+        split.
+        - rewrite A1, P1, W8 by exact Hne_es. change (r_fs s5) with (r_fs (da_st a)). rewrite Ifs. fold n.
+          destruct (j' <? n) eqn:E; [|reflexivity]. unfold fs_after. destruct (slot_of c pos j') as [|f idx b|h] eqn:Es; try reflexivity.
+          assert (En : N.eqb (cf_name f) n' = false) by (apply N.eqb_neq; apply (Hno f idx b eq_refl)).
+          rewrite En, andb_false_r. reflexivity.
+        - rewrite A2, P2, WF2 by exact Hne_es. change (r_flags s5) with (r_flags (da_st a)). apply Cfl. }
+      assert (G2 : forall j f idx b, slot_of c pos j = SFile f idx b ->
+            fl_fixed (get_fl (r_flags s8) (j, cf_name f)) = fl_fixed (get_fl (r_flags s) (j, cf_name f)) || is_bad c pos s j
+            /\ (is_bad c pos s j = false -> fl_fixed (get_fl (r_flags s) (j, cf_name f)) = false ->
+                fs_find (r_fs s8) j (cf_name f) = fs_find (r_fs s) j (cf_name f))
+            /\ (uniq_stamp c j f -> S idx = length (cf_blocks f) -> fl_fixed (get_fl (r_flags s8) (j, cf_name f)) = true ->
+                exists g, fs_find (r_fs s8) j (cf_name f) = Some g /\ ff_mtime g = cf_mtime f /\ ff_nsec g = cf_nsec f)).
+      { intros j f idx b Es. assert (Hj : j < n) by (apply (Hj_of j f idx b Es)).
+        destruct (FSB j f idx b ltac:(apply in_seq; lia) Es) as [B1 [B2 B3]].
+        assert (Efx7 : fl_fixed (get_fl (r_flags s7) (j, cf_name f)) = fl_fixed (get_fl (r_flags s) (j, cf_name f)) || is_bad c pos s j).
+        { rewrite P2. destruct (is_bad c pos s j) eqn:Eb.
+          - rewrite orb_true_r. apply (WF1 (j, f, idx, b)). unfold es. apply in_flat_map. exists j. split; [apply in_seq; lia|]. rewrite Es, Eb. left. reflexivity.
+          - rewrite orb_false_r. rewrite WF2 by (intros x Hx; apply (Hes_key x j f idx b Hx Es Eb)).
+            change (r_flags s5) with (r_flags (da_st a)). apply Cfl. }
+        split; [rewrite B1; exact Efx7|]. split.
+        - intros Eb Hnf. rewrite B2 by (rewrite Efx7, Hnf, Eb; reflexivity).
+          rewrite P1, W8 by (intros x Hx; apply (Hes_key x j f idx b Hx Es Eb)).
+          change (r_fs s5) with (r_fs (da_st a)). rewrite Ifs. assert (E : (j <? n) = true) by (apply Nat.ltb_lt; exact Hj). fold n. rewrite E.
+          unfold fs_after. rewrite Es, Hfix, N.eqb_refl. cbn [andb].
+          unfold is_bad in Eb. rewrite Es in Eb. destruct (read_block bs s j f idx) as [y|] eqn:Er; [|discriminate].
+          destruct (read_block_some s j f idx y Er) as [g [Hg _]]. rewrite Hg. reflexivity.
+        - intros Hu Hl Hfx. rewrite B1 in Hfx.
+          destruct (Hs6all j f idx b Es) as [g6 [Hg6 _]]. rewrite <- P1 in Hg6.
+          exists (restamp f g6). split; [apply (B3 Hu Hl Hfx g6 Hg6) | split; reflexivity]. }
       split; [|split; [|split; [|split; [|split; [|split; [|split; [|split]]]]]]].
       - (* the data *)
         intros j f idx b Es.
@@ -1376,7 +1433,8 @@ Section Phases.
           rewrite En, andb_false_r. apply same_data_refl.
         + intros x Hx X. destruct (es_in x Hx) as [j2 [f2 [i2 [b2 [Ex [_ [Es2 _]]]]]]]. subst x. cbn in X. injection X as X1 X2. subst j2.
           apply (Hno f2 i2 b2 Es2). symmetry. exact X2.
-      - (* the other blocks of the files of this stripe *)
+      - split; [|split; [exact G1 | exact G2]].
+        (* the other blocks of the files of this stripe *)
         intros j f idx b Es. destruct (Hs6all j f idx b Es) as [g [Hg [_ [_ [_ [Hoth [Hlo Hhi]]]]]]].
         pose proof (Q6 j (cf_name f)) as Q. rewrite P1, Hg in Q.
         unfold fsz at 2 3, fblk at 1. destruct (fs_find (r_fs s8) j (cf_name f)) as [g8|] eqn:E8; [|contradiction]. destruct Q as [Qa Qb].
